@@ -58,6 +58,21 @@ func ruleWRAPCOMMUTE(c *Ctx, r *Report) {
 		}
 	}
 	r.floor(rule, "kinds the helper scopes", len(sensitive)-1, 1)
+	// a production that builds a node of a scoped kind itself manufactures something the helper (and the
+	// single-term acceptance) will take for a bare term and scope — a node that is not a term of the query
+	nProd := 0
+	for _, row := range pt.Rows {
+		if row.OutKind != "ctor" {
+			continue
+		}
+		nProd++
+		for _, op := range append([]string{row.Op}, row.AltOps...) {
+			if op != "expr.Equals" && sensitive[op] {
+				r.bad(rule, "production-builds|"+op, c.pos(row.Reducer.Pos()), fmt.Sprintf("%s builds a node of kind %s for the window %s: with a default field every later production (and the acceptance of a single term) scopes that node like a bare term of the query, which it is not — the tree then differs from the option-free one by more than the scoping of bare terms", fnName(row.Reducer), op, row.pattern()))
+			}
+		}
+	}
+	r.floor(rule, "constructor productions", nProd, 8)
 	// functions of package reduce reachable from the reducers
 	reach := c.reachFrom(pt.Reducers)
 	var fns []*ssa.Function
